@@ -24,29 +24,78 @@ ASSUMPTIONS = ["pyref.ecdsa / pyref.rfc6979 / pyref.ec are correct (validated ag
                "public keys handed to verify are objects made by the library's strict parser from the reference point",
                "nonce callbacks return 0 or 1 only (other return values are not documented)"]
 
-ALL = {"quick": ["prod", "vsan"], "thorough": ["prod", "vsan", "int64", "struct"]}
 
 
 def b32(v):
     return int(v).to_bytes(32, "big")
 
 
+# ------------------------------------------------------------------ limb-prefix values
+# The library compares scalars / field elements with constants limb by limb (32- or 64-bit limbs for scalars).  A wrong constant or a
+# dropped step in such a chain is visible only for values that EQUAL the constant on all higher limbs and differ in one lower limb.
+def limb_prefix(c, k, mode, j, rnd):
+    """value equal to c on the top k*32 bits (k = 1..7); the low L = 256-32k bits by mode:
+    zero / ones / rand / own+ / own- (c's low bits +- 1 in limb j) / limb0 / limbF / limb+ / limb- (limb j := 0, 0xFFFFFFFF, c's limb +- 1; other low limbs = c's)"""
+    L = 256 - 32 * k
+    lowmask = (1 << L) - 1
+    top = c & ~lowmask & M256
+    clow = c & lowmask
+    j = (7 - k) - (j % (8 - k))           # a limb strictly below the prefix; j = 0 is the limb right below it (the one that decides the comparison)
+    lm = 0xFFFFFFFF << (32 * j)
+    if mode == "zero":
+        low = 0
+    elif mode == "ones":
+        low = lowmask
+    elif mode == "rand":
+        low = rnd & lowmask
+    elif mode == "own+":
+        low = (clow + (1 << (32 * j))) & lowmask
+    elif mode == "own-":
+        low = (clow - (1 << (32 * j))) & lowmask
+    elif mode == "limb0":
+        low = clow & ~lm
+    elif mode == "limbF":
+        low = clow | lm
+    elif mode == "limb+":
+        low = (clow & ~lm) | ((((clow >> (32 * j)) + 1) & 0xFFFFFFFF) << (32 * j))
+    elif mode == "limb-":
+        low = (clow & ~lm) | ((((clow >> (32 * j)) - 1) & 0xFFFFFFFF) << (32 * j))
+    else:
+        raise ValueError(mode)
+    return top | (low & lowmask)
+
+
+_LP_MODES = ["zero", "ones", "rand", "own+", "own-", "limb0", "limbF", "limb+", "limb-", "own+", "own-", "limb+", "limb-"]
+
+
+def lp_strategy(consts):
+    """-> strategy of [value, label] ; label names the constant and the prefix length (for the class histogram)"""
+    names = {HALF: "half", N: "n", P: "p", P - N: "p-n"}
+    return st.builds(lambda c, k, mode, j, rnd: [limb_prefix(c, k, mode, j, rnd), "%s/k%d" % (names[c], k)],
+                     st.sampled_from(consts), st.integers(1, 7), st.sampled_from(_LP_MODES), st.sampled_from([0, 0, 0, 1, 2, 3, 4, 5, 6]), st.integers(0, M256))
+
+
+def lp_values(consts):
+    return lp_strategy(consts).map(lambda t: t[0])
+
+
 # ------------------------------------------------------------------ signing
-_invalid_nonce = st.one_of(st.sampled_from([0, N, N + 1, M256, M256 - 1, P]), st.integers(N, M256))
+_invalid_nonce = st.one_of(st.sampled_from([0, N, N + 1, M256, M256 - 1, P]), st.integers(N, M256), lp_values([N]).filter(lambda v: v >= N))
+_valid_nonce = st.one_of(gens.seckey_valid, gens.seckey_valid, lp_values([N]).filter(lambda v: 1 <= v < N))
 
 
 @st.composite
 def sign_case(draw):
-    case = {"sk": draw(gens.seckey_any), "msg": draw(gens.msg32),
+    case = {"sk": draw(st.one_of(gens.seckey_any, gens.seckey_any, lp_values([N]))), "msg": draw(st.one_of(gens.msg32, gens.msg32, lp_values([N]))),
             "extra": draw(st.one_of(st.none(), st.none(), gens.hexbytes(32), st.sampled_from(["00" * 32, "ff" * 32]))),
             "src": draw(st.sampled_from(["null", "null", "null", "rfc6979", "default", "fail", "script", "script", "script"]))}
     if case["src"] == "script":
         script = [draw(_invalid_nonce) for _ in range(draw(st.sampled_from([0, 0, 1, 1, 2, 3])))]
         tail = draw(st.sampled_from(["valid", "valid", "valid", "fail", "none", "valid2"]))
         if tail in ("valid", "valid2"):
-            script.append(draw(gens.seckey_valid))
+            script.append(draw(_valid_nonce))
         if tail == "valid2":
-            script.append(draw(gens.seckey_valid))
+            script.append(draw(_valid_nonce))
         if tail == "fail":
             script.append(-1)
         case["script"] = script
@@ -102,6 +151,10 @@ def run_sign(env, case):
     classes = ["src:" + src, "key_valid" if valid else "key_invalid"]
     if msg >= N:
         classes.append("msg>=n")
+    if (sk >> 128) == (N >> 128):
+        classes.append("key~n:" + ("valid" if valid else "invalid"))
+    if (msg >> 128) == (N >> 128):
+        classes.append("msg~n")
     ndata = buf(32, extra) if extra is not None else None
     ns = None
     script = None
@@ -197,9 +250,16 @@ _BOUND = [0, 1, 2, N - 1, N - 2, HALF, HALF + 1, HALF - 1, P - N, P - N - 1, P -
 _MUTS = ["bitflip", "bitflip", "r0", "s0", "swap", "negkey", "otherkey", "othermsg", "msg_pm_n", "msg_pm_n", "s_neg", "s_neg", "r_plus_n", "s_plus_n", "r_minus", "s_pm1"]
 
 
+def _s_of(v):
+    """a usable s in [1, n) from a limb-prefix value"""
+    return v % N or 1
+
+
 @st.composite
-def verify_case(draw):
-    kind = draw(st.sampled_from(["honest", "honest", "fromR", "fromR", "fromR", "boundary"]))
+def verify_case(draw, limb_share=1):
+    """limb_share: how many of 6 draws take s / r / msg / x from the limb-prefix classes (the configuration tests use a high share)"""
+    kind = draw(st.sampled_from(["honest", "honest", "fromR", "fromR", "fromR", "boundary"] if limb_share < 4 else ["fromR", "fromR", "fromR", "fromR", "boundary", "honest"]))
+    use_lp = draw(st.integers(0, 5)) < limb_share
     if kind == "honest":
         base = {"kind": kind, "sk": draw(gens.seckey_valid), "msg": draw(gens.msg32), "k": draw(gens.seckey_valid),
                 "high": draw(st.booleans())}
@@ -208,10 +268,23 @@ def verify_case(draw):
                             gens.u256_edge.map(lambda v: v % P or 1)))
         base = {"kind": kind, "xbase": xb, "dir": draw(st.sampled_from([1, 1, -1])), "odd": draw(st.integers(0, 1)),
                 "s": draw(st.one_of(st.sampled_from(_SVALS), st.sampled_from(_SVALS), gens.seckey_valid)), "msg": draw(gens.msg32)}
+        if use_lp:
+            # a VALID signature whose s shares its top limbs with n/2 (or n) and differs below: on either side of the half order
+            base["s"] = _s_of(draw(lp_values([HALF, HALF, HALF, N])))
+            which = draw(st.integers(0, 3))
+            if which == 1:
+                base["xbase"] = draw(lp_values([N, P, P - N])) % P or 1
+            elif which == 2:
+                base["msg"] = draw(lp_values([N]))
     else:
         base = {"kind": kind, "r": draw(st.one_of(st.sampled_from(_BOUND), gens.u256_edge.map(lambda v: v % N))),
                 "s": draw(st.one_of(st.sampled_from(_BOUND), gens.u256_edge.map(lambda v: v % N))),
                 "sk": draw(gens.seckey_valid), "msg": draw(gens.msg32)}
+        if use_lp:
+            base["r"] = draw(lp_values([N, P - N, HALF])) % N
+            base["s"] = draw(lp_values([HALF, N])) % N
+    if kind == "honest" and use_lp:
+        base["msg"] = draw(lp_values([N]))
     muts = [{"kind": draw(st.sampled_from(_MUTS)), "a": draw(st.integers(0, 511))} for _ in range(draw(st.sampled_from([0, 0, 1, 1, 1, 2])))]
     return {"base": base, "muts": muts}
 
@@ -325,6 +398,17 @@ def run_verify(env, case):
     xr = meta.get("xR")
     tag = "accept" if expect else "reject"
     near_half = abs(s - HALF) <= 1 or abs(s - (HALF + 1)) <= 1
+    # s shares its top 32*k bits with n/2 (k = 1..7) but is not one of the two exact boundary values: the limb-by-limb comparison decides in a lower limb
+    if s not in (HALF, HALF + 1):
+        k = 0
+        while k < 7 and (s >> (224 - 32 * k)) == (HALF >> (224 - 32 * k)):
+            k += 1
+        if k >= 4:
+            side = "high" if s > HALF else "low"
+            classes.append("s~half/k%d:%s:%s" % (k, side, tag))
+            classes.append("s~half:%s:%s" % (side, "eq_holds" if eq else "eq_fails"))
+    if r != P - N and (r >> 64) == ((P - N) >> 64):
+        classes.append("r~p-n")
     if s == HALF:
         classes.append("s=half:" + tag)
     if s == HALF + 1:
@@ -381,14 +465,30 @@ def run_verify(env, case):
             raise RuntimeError("reference inconsistent: recovery does not return the constructed key")
         classes.append("rec_true_key")
     env.require(lib.illegal() == 0 and lib.errors() == 0, "callback fired during verification / recovery: " + lib.cbmsg())
-    nontrivial = m >= N or near_half or (xr is not None and xr >= N) or bool(case["muts"]) or rec_hi_ok
+    limbish = any(c.startswith(("s~half", "r~p-n")) for c in classes)
+    nontrivial = m >= N or near_half or limbish or (xr is not None and xr >= N) or bool(case["muts"]) or rec_hi_ok
     return nontrivial, classes
 
 
+def verify_case_cfg():
+    return verify_case(limb_share=5)
+
+
+OTHER = {"quick": ["int64", "struct"], "thorough": ["int64", "struct"]}
+BASE = {"quick": ["prod", "vsan"], "thorough": ["prod", "vsan"]}
+_SIGN_COVER = ["msg>=n", "key_invalid", "src:fail", "retried", "s0_retry", "sign_ok", "sign_fail", "key~n:valid", "key~n:invalid", "msg~n"]
+_VERIFY_COVER = ["Rx>=n:accept", "s=half:accept", "s=half+1:reject", "msg>=n", "rec2_ok", "rec2_fail_range", "high_twin", "accept", "reject",
+                 "msg+n", "high_s_equation_holds", "out_of_range",
+                 # valid signatures whose s equals n/2 on the top 4 / 5 / 6 / 7 32-bit limbs and lies above resp. below it
+                 "s~half:high:eq_holds", "s~half:low:eq_holds", "s~half/k4:high:reject", "s~half/k5:high:reject", "s~half/k6:high:reject", "s~half/k7:high:reject",
+                 "s~half/k4:low:accept", "s~half/k5:low:accept", "s~half/k6:low:accept", "s~half/k7:low:accept", "r~p-n"]
+# The property quantifies over build configurations: the 8x32 / 10x26 (int64) and int128-struct builds run a smaller, limb-prefix-heavy share in the quick tier already.
 TESTS = [
-    Test("sign", sign_case, run_sign, quick=4000, thorough=60000, cfgs=ALL,
-         must_cover=["msg>=n", "key_invalid", "src:fail", "retried", "s0_retry", "sign_ok", "sign_fail"]),
-    Test("verify", verify_case, run_verify, quick=6000, thorough=100000, cfgs=ALL,
-         must_cover=["Rx>=n:accept", "s=half:accept", "s=half+1:reject", "msg>=n", "rec2_ok", "rec2_fail_range", "high_twin", "accept", "reject",
-                     "msg+n", "high_s_equation_holds", "out_of_range"]),
+    Test("sign", sign_case, run_sign, quick=4000, thorough=60000, cfgs=BASE, must_cover=_SIGN_COVER),
+    Test("verify", verify_case, run_verify, quick=6000, thorough=100000, cfgs=BASE, must_cover=_VERIFY_COVER),
+    Test("sign_cfg", sign_case, run_sign, quick=500, thorough=40000, cfgs=OTHER, must_cover=["msg>=n", "key_invalid", "retried", "sign_ok", "sign_fail", "key~n:valid", "msg~n"]),
+    Test("verify_cfg", verify_case_cfg, run_verify, quick=1500, thorough=60000, cfgs=OTHER,
+         must_cover=["Rx>=n:accept", "s=half:accept", "s=half+1:reject", "rec2_ok", "accept", "reject", "s~half:high:eq_holds", "s~half:low:eq_holds",
+                     "s~half/k4:high:reject", "s~half/k5:high:reject", "s~half/k6:high:reject", "s~half/k7:high:reject",
+                     "s~half/k4:low:accept", "s~half/k5:low:accept", "s~half/k6:low:accept", "s~half/k7:low:accept"]),
 ]
